@@ -509,7 +509,7 @@ impl SessionEngine {
 //@@ subst `&self.outgoing` => `&mut self.outgoing` rule=R9
 //@@ subst `self.outgoing_link_frames.close()` => `self.outgoing_link_frames.close(Ghost(self.session.stop is Some))` rule=optional-R9
 //@@ subst `definitions::Error::new(condition, description, None)` => `amqp_error_new(condition, description)` rule=R11
-//@@ subst `result.map_err(Into::into)` => `alloc_err_into(result)` rule=R17
+//@@ subst `result.map_err(Into::into)` => `alloc_err_into(result)` rule=R17 unless `\.map_err\(`
 //@@ spec
     requires
         forall|i: int| 0 <= i < old(self).outgoing_link_frames.queue@.len() ==> !((#[trigger] old(self).outgoing_link_frames.queue@[i]) is Acquisition),
@@ -551,7 +551,7 @@ impl SessionEngine {
 //@@ subst `(mut self,` => `(&mut self,` rule=R32
 //@@ subst `SessionStopReason::from(reason.clone())` => `stop_reason_from_conn(reason.clone())` rule=R16
 //@@ subst `connection::deallocate_session(__E1)` => `deallocate_session(__E1)` rule=R11
-//@@ subst `other.map_err(Into::into)` => `other.map_err(|e: SessionInnerError| -> (o: SessError) ensures o == inner_to_sess_error(e) { inner_into_sess_error(e) })` rule=R17
+//@@ subst `other.map_err(Into::into)` => `other.map_err(|e: SessionInnerError| -> (o: SessError) ensures o == inner_to_sess_error(e) { inner_into_sess_error(e) })` rule=R17 unless `\.map_err\(`
 //@@ spec
     requires
         tx.outcome@ == outcome,
